@@ -39,6 +39,8 @@ var errScript = errors.New("scripted failure")
 
 type plan struct {
 	attachFail bool
+	needAuth   bool // RequireAuth()
+	authFail   bool
 	attachQid  p9p.Qid
 	walkK      int   // number of qids to answer with; -1: error
 	walkSeq    []int // if non-empty: one walkK per call of the FS's Walk, in order (walks sent in several messages)
@@ -65,9 +67,12 @@ func (f sFile) Read(ctx context.Context, p []byte, offset int64) (int, error)  {
 func (f sFile) Write(ctx context.Context, p []byte, offset int64) (int, error) { return len(p), nil }
 func (f sFile) IOUnit() int                                                    { return f.iounit }
 
-func (fs *sFS) RequireAuth(ctx context.Context) bool { return false }
+func (fs *sFS) RequireAuth(ctx context.Context) bool { return fs.p.needAuth }
 func (fs *sFS) Auth(ctx context.Context, uname, aname string) (p9p.AuthFile, error) {
-	return nil, errScript
+	if fs.p.authFail {
+		return nil, errScript
+	}
+	return otherAuthFile{}, nil
 }
 func (fs *sFS) Attach(ctx context.Context, uname, aname string, af p9p.AuthFile) (p9p.Dirent, error) {
 	if fs.p.attachFail {
@@ -158,6 +163,9 @@ type call struct {
 	err          error
 	qids         []p9p.Qid
 	complete     bool
+	count        int
+	off          int64
+	data         []byte
 }
 
 type spy struct {
@@ -178,7 +186,15 @@ func dirBytes(d p9p.Dir) []byte {
 }
 
 func (s *spy) Auth(ctx context.Context, afid p9p.Fid, uname, aname string) (p9p.Qid, error) {
-	return s.inner.Auth(ctx, afid, uname, aname)
+	q, err := s.inner.Auth(ctx, afid, uname, aname)
+	c := call{kind: "auth", fid: afid, uname: uname, aname: aname, err: err}
+	if err != nil {
+		c.ans = sx.Sym("err")
+	} else {
+		c.ans = sx.L(sx.Sym("qid"), sx.U(uint64(q.Type)), sx.U(uint64(q.Version)), sx.U(q.Path))
+	}
+	s.calls = append(s.calls, c)
+	return q, err
 }
 func (s *spy) Attach(ctx context.Context, fid, afid p9p.Fid, uname, aname string) (p9p.Qid, error) {
 	q, err := s.inner.Attach(ctx, fid, afid, uname, aname)
@@ -224,10 +240,26 @@ func (s *spy) Walk(ctx context.Context, fid, newfid p9p.Fid, names ...string) ([
 	return qids, err
 }
 func (s *spy) Read(ctx context.Context, fid p9p.Fid, p []byte, offset int64) (int, error) {
-	return s.inner.Read(ctx, fid, p, offset)
+	n, err := s.inner.Read(ctx, fid, p, offset)
+	c := call{kind: "read", fid: fid, count: len(p), off: offset, err: err}
+	if err != nil {
+		c.ans = sx.Sym("err")
+	} else {
+		c.ans = sx.L(sx.Sym("read"), sx.B(p[:n]))
+	}
+	s.calls = append(s.calls, c)
+	return n, err
 }
 func (s *spy) Write(ctx context.Context, fid p9p.Fid, p []byte, offset int64) (int, error) {
-	return s.inner.Write(ctx, fid, p, offset)
+	n, err := s.inner.Write(ctx, fid, p, offset)
+	c := call{kind: "write", fid: fid, data: append([]byte{}, p...), off: offset, err: err}
+	if err != nil {
+		c.ans = sx.Sym("err")
+	} else {
+		c.ans = sx.L(sx.Sym("written"), sx.I(int64(n)))
+	}
+	s.calls = append(s.calls, c)
+	return n, err
 }
 func (s *spy) Open(ctx context.Context, fid p9p.Fid, mode p9p.Flag) (p9p.Qid, uint32, error) {
 	q, iou, err := s.inner.Open(ctx, fid, mode)
@@ -288,6 +320,12 @@ func (c *call) sexp() sx.S {
 		return sx.L(sx.Sym("clunk"), sx.U(uint64(c.fid)))
 	case "remove":
 		return sx.L(sx.Sym("remove"), sx.U(uint64(c.fid)))
+	case "auth":
+		return sx.L(sx.Sym("auth"), sx.U(uint64(c.fid)), sx.Str(c.uname), sx.Str(c.aname))
+	case "read":
+		return sx.L(sx.Sym("read"), sx.U(uint64(c.fid)), sx.I(int64(c.count)), sx.I(c.off))
+	case "write":
+		return sx.L(sx.Sym("write"), sx.U(uint64(c.fid)), sx.B(c.data), sx.I(c.off))
 	}
 	panic("unknown call kind")
 }
@@ -298,6 +336,27 @@ type slotInfo struct {
 	ent  p9p.Dirent
 	fid  uint32 // the entry object's own fid, read off the object
 	live bool
+}
+
+// an auth file obtained from Auth (a failed Auth hands back the layer's noAuth)
+type aslotInfo struct {
+	af   p9p.AuthFile
+	afid uint32 // read off the object
+	ok   bool   // Auth succeeded
+	live bool   // not closed yet
+}
+
+// afileFid reads the unexported afid field of the client layer's auth file object.
+func afileFid(a p9p.AuthFile) uint32 {
+	v := reflect.ValueOf(a)
+	if v.Kind() == reflect.Ptr {
+		v = v.Elem()
+	}
+	f := v.FieldByName("afid")
+	if !f.IsValid() {
+		panic(fmt.Sprintf("the client layer's auth file type %T has no field 'afid' any more: adapt the harness", a))
+	}
+	return uint32(f.Uint())
 }
 
 // entFid reads the unexported fid field of the client layer's entry object.
@@ -390,10 +449,10 @@ func boundFids(r *rep.Report, inner p9p.Session) ([]uint32, int) {
 	var out []uint32
 	odd := 0
 	for _, e := range tab {
-		if e.Bound {
-			out = append(out, uint32(e.Fid))
-		} else {
-			odd++ // present but not bound, or still locked
+		// a fid the server holds: bound to an entry, or held for an auth file (no entry, a file)
+		out = append(out, uint32(e.Fid))
+		if e.Locked || (!e.Bound && !e.Open) {
+			odd++ // still locked, or neither entry nor file
 		}
 	}
 	sort.Slice(out, func(i, j int) bool { return out[i] < out[j] })
@@ -421,7 +480,11 @@ func contains(f []uint32, x uint32) bool {
 // e2e = true: CFileSys(spy(CSession)) -> in-memory conn -> ServeConn(SSession(SFileSys(scripted FS))),
 // i.e. the real client session (csession.go) is what answers the layer's calls, and the fid
 // table read is the one of the SFileSys at the far end.
-func runSeq(r *rep.Report, rng *prng.R, e2e bool) {
+// mode 2: CFileSys(spy(randSess)): a session that answers every call by the roll of a die (any
+// answer to any call, consistent with nothing) -- the "arbitrary scripted session" the theorems
+// quantify over; there is no server behind it, so no fid table is observed in this family.
+func runSeq(r *rep.Report, rng *prng.R, mode int) {
+	e2e, scripted := mode == 1, mode == 2
 	ctx, cancel := context.WithTimeout(context.Background(), 900*time.Second)
 	defer cancel()
 	p := &plan{}
@@ -471,17 +534,31 @@ func runSeq(r *rep.Report, rng *prng.R, e2e bool) {
 			inner = p9p.SFileSys(fs)
 		}
 	}
+	if scripted {
+		sess = &randSess{rng: rng.Fork()}
+	}
 	sp := &spy{inner: sess, msize: msize}
 	cfs := p9p.CFileSys(sp)
+	tableOf := func() ([]uint32, int) {
+		if scripted {
+			return nil, 0
+		}
+		return boundFids(r, inner)
+	}
 
 	var slots []slotInfo
+	var aslots []aslotInfo
 	var ops, obs []sx.S
 	nops := rng.Range(3, 30)
 	hasWalkDot, hadFailWalk := false, false
 	oddTotal := 0
 
 	caseSoFar := func() sx.S {
-		l := []sx.S{sx.Sym("cfs"), sx.I(int64(msize))}
+		head := "cfs"
+		if scripted {
+			head = "cfsx"
+		}
+		l := []sx.S{sx.Sym(head), sx.I(int64(msize))}
 		return sx.List(append(l, ops...))
 	}
 
@@ -508,6 +585,7 @@ func runSeq(r *rep.Report, rng *prng.R, e2e bool) {
 		}
 		*p = plan{
 			attachFail: rng.Chance(1, 8), attachQid: genQid(rng, 90),
+			needAuth: rng.Chance(3, 4), authFail: rng.Chance(1, 5),
 			walkK: 99, openFail: rng.Chance(1, 6),
 			iounit:     rng.Pick(0, 0, 1, 4096, 8192, 1<<20),
 			createFail: rng.Chance(1, 5), createQid: genQid(rng, 40),
@@ -549,8 +627,14 @@ func runSeq(r *rep.Report, rng *prng.R, e2e bool) {
 		var opHead []sx.S
 		var ent p9p.Dirent
 		var efid uint32
-		if kind != "attach" {
+		authOp := kind == "auth" || kind == "aread" || kind == "awrite" || kind == "aclose"
+		if kind != "attach" && !authOp {
 			ent, efid = slots[si].ent, slots[si].fid
+		}
+		var af p9p.AuthFile // the auth file an auth-file operation works on
+		var afid uint32
+		if authOp && kind != "auth" {
+			af, afid = aslots[si].af, aslots[si].afid
 		}
 		slotWasDir, createSafe, createName, createQType := false, false, "", p9p.QType(0)
 		if kind == "create" {
@@ -560,6 +644,9 @@ func runSeq(r *rep.Report, rng *prng.R, e2e bool) {
 		panicked := false
 		panicText, nilWhat := "", "" // the implementation panicked / returned nothing and no error
 		afk := 0
+		attachAfid := uint32(p9p.NOFID) // the afid Attach has to send
+		var authErr error
+		newAfid, gotAfile := uint32(0), false
 		var walkRes struct {
 			qids []p9p.Qid
 			ent  p9p.Dirent
@@ -580,13 +667,20 @@ func runSeq(r *rep.Report, rng *prng.R, e2e bool) {
 			switch kind {
 			case "attach":
 				uname, aname := string(rng.Bytes(rng.Intn(4))), string(rng.Bytes(rng.Intn(4)))
-				var af p9p.AuthFile
+				var aaf p9p.AuthFile
+				ai := 0
 				if rng.Chance(1, 12) {
 					afk = 2
-					af = otherAuthFile{}
+					aaf = otherAuthFile{}
+				} else if len(aslots) > 0 && rng.Chance(1, 3) {
+					// attach with an auth file obtained earlier (also a closed one, also the noAuth of a refused Tauth)
+					afk = 1
+					ai = rng.Intn(len(aslots))
+					aaf = aslots[ai].af
+					attachAfid = aslots[ai].afid
 				}
-				opHead = []sx.S{sx.Sym("attach"), sx.Str(uname), sx.Str(aname), sx.I(int64(afk)), sx.I(0)}
-				e, err := cfs.Attach(ctx, uname, aname, af)
+				opHead = []sx.S{sx.Sym("attach"), sx.Str(uname), sx.Str(aname), sx.I(int64(afk)), sx.I(int64(ai))}
+				e, err := cfs.Attach(ctx, uname, aname, aaf)
 				if err != nil {
 					res = sx.Sym("err")
 				} else if isNilEnt(e) {
@@ -686,6 +780,56 @@ func runSeq(r *rep.Report, rng *prng.R, e2e bool) {
 				} else {
 					res = sx.Sym("unit")
 				}
+			case "auth":
+				uname, aname := string(rng.Bytes(rng.Intn(4))), string(rng.Bytes(rng.Intn(4)))
+				opHead = []sx.S{sx.Sym("auth"), sx.Str(uname), sx.Str(aname)}
+				a, err := cfs.Auth(ctx, uname, aname)
+				authErr = err
+				switch {
+				case a == nil:
+					if err == nil {
+						res, nilWhat = sx.Sym("nil-entry"), "Auth returned no auth file and no error"
+					} else {
+						res = sx.Sym("err")
+					}
+					aslots = append(aslots, aslotInfo{af: nil, afid: uint32(p9p.NOFID)})
+				case err != nil:
+					res = sx.Sym("err")
+					aslots = append(aslots, aslotInfo{af: a, afid: afileFid(a)})
+				default:
+					f := afileFid(a)
+					res = sx.L(sx.Sym("authfile"), sx.U(uint64(f)), sx.I(int64(a.IOUnit())))
+					aslots = append(aslots, aslotInfo{af: a, afid: f, ok: true, live: true})
+					newAfid, gotAfile = f, true
+				}
+			case "aread":
+				count, off := rng.Intn(65), int64(rng.Intn(1000))
+				opHead = []sx.S{sx.Sym("aread"), sx.I(int64(si)), sx.I(int64(count)), sx.I(off)}
+				buf := make([]byte, count)
+				n, err := af.Read(ctx, buf, off)
+				if err != nil {
+					res = sx.Sym("err")
+				} else {
+					res = sx.L(sx.Sym("read"), sx.B(buf[:n]))
+				}
+			case "awrite":
+				data, off := rng.Bytes(rng.Intn(17)), int64(rng.Intn(1000))
+				opHead = []sx.S{sx.Sym("awrite"), sx.I(int64(si)), sx.B(data), sx.I(off)}
+				n, err := af.Write(ctx, data, off)
+				if err != nil {
+					res = sx.Sym("err")
+				} else {
+					res = sx.L(sx.Sym("written"), sx.I(int64(n)))
+				}
+			case "aclose":
+				opHead = []sx.S{sx.Sym("aclose"), sx.I(int64(si))}
+				err := af.Close(ctx)
+				aslots[si].live = false
+				if err != nil {
+					res = sx.Sym("err")
+				} else {
+					res = sx.Sym("unit")
+				}
 			case "clunk", "remove":
 				opHead = []sx.S{sx.Sym(kind), sx.I(int64(si))}
 				var err error
@@ -707,10 +851,14 @@ func runSeq(r *rep.Report, rng *prng.R, e2e bool) {
 		if len(issued) >= 1 {
 			callS, ans = issued[0].sexp(), issued[0].ans
 		}
-		bound, odd := boundFids(r, inner)
+		bound, odd := tableOf()
 		oddTotal += odd
 		ops = append(ops, sx.List(append(opHead, ans)))
-		obs = append(obs, sx.L(callS, res, fidsS(bound)))
+		if scripted {
+			obs = append(obs, sx.L(callS, res))
+		} else {
+			obs = append(obs, sx.L(callS, res, fidsS(bound)))
+		}
 		rs := sx.String(res)
 		if i := strings.IndexByte(rs, ' '); i > 0 {
 			rs = rs[1:i]
@@ -738,10 +886,39 @@ func runSeq(r *rep.Report, rng *prng.R, e2e bool) {
 			if kind == "opendir" {
 				wantKind = "open"
 			}
-			if ic.kind != wantKind {
+			if !(authOp && kind != "auth") && ic.kind != wantKind {
 				r.Fail("cfs."+kind+".forward", fmt.Sprintf("%s issued the session call %s", kind, ic.kind), c, nil)
 			}
-			if kind != "attach" && uint32(ic.fid) != efid {
+			if authOp && kind != "auth" {
+				wk := map[string]string{"aread": "read", "awrite": "write", "aclose": "clunk"}[kind]
+				if ic.kind != wk {
+					r.Fail("cfs."+kind+".forward", fmt.Sprintf("%s on the auth file issued the session call %s", kind, ic.kind), c, nil)
+				}
+				if uint32(ic.fid) != afid {
+					r.Fail("cfs."+kind+".ownfid", fmt.Sprintf("%s on the auth file with afid %d issued %s on fid %d", kind, afid, ic.kind, ic.fid), c, nil)
+				}
+			}
+			if kind == "attach" && !panicked && uint32(ic.afid) != attachAfid {
+				r.Fail("cfs.attach.afid", fmt.Sprintf("Attach with the auth file on afid %d sent afid %d", attachAfid, ic.afid), c, nil)
+			}
+			if kind == "auth" && !panicked {
+				if ic.err != nil {
+					// a refused Tauth surfaces as an error and leaves no fid behind
+					if authErr == nil {
+						r.Fail("cfs.auth.refused-reported-ok", fmt.Sprintf("the session refused Tauth on afid %d (%v), the layer reported success", ic.fid, ic.err), c, nil)
+					}
+					if contains(bound, uint32(ic.fid)) {
+						r.Fail("cfs.auth.refused-bound", fmt.Sprintf("Tauth on afid %d was refused, yet the server holds that fid", ic.fid), c, nil)
+					}
+				} else {
+					if authErr != nil || !gotAfile {
+						r.Fail("cfs.auth.accepted-reported-failed", fmt.Sprintf("the session accepted Tauth on afid %d, the layer reported %v", ic.fid, authErr), c, nil)
+					} else if newAfid != uint32(ic.fid) {
+						r.Fail("cfs.auth.afid", fmt.Sprintf("Tauth was sent on afid %d, the auth file returned sits on afid %d", ic.fid, newAfid), c, nil)
+					}
+				}
+			}
+			if kind != "attach" && !authOp && uint32(ic.fid) != efid {
 				r.Fail("cfs."+kind+".ownfid", fmt.Sprintf("%s on the entry with fid %d issued %s on fid %d", kind, efid, ic.kind, ic.fid), c, nil)
 			}
 			if kind == "walk" && reuse && lastIssued && strings.Join(ic.names, "\x00") != strings.Join(lastSent, "\x00") {
@@ -817,6 +994,18 @@ func runSeq(r *rep.Report, rng *prng.R, e2e bool) {
 			}
 			seen[s.fid] = i
 		}
+		for i, a := range aslots {
+			if !a.live {
+				continue
+			}
+			if a.afid == uint32(p9p.NOFID) {
+				r.Fail("cfs.fid.nofid", fmt.Sprintf("live auth file %d has afid NOFID", i), c, nil)
+			}
+			if j, dup := seen[a.afid]; dup {
+				r.Fail("cfs.fid.duplicate", fmt.Sprintf("the live auth file %d shares fid %d with live object %d", i, a.afid, j), c, nil)
+			}
+			seen[a.afid] = -1 - i
+		}
 	}
 
 	for len(ops) < nops {
@@ -833,6 +1022,34 @@ func runSeq(r *rep.Report, rng *prng.R, e2e bool) {
 		si := rng.Intn(len(slots))
 		if len(live) > 0 && rng.Chance(19, 20) {
 			si = live[rng.Intn(len(live))]
+		}
+		if rng.Chance(1, 10) {
+			do("auth", -1)
+			continue
+		}
+		if rng.Chance(1, 8) {
+			// something on an auth file held (rarely: closed already); Close also on the noAuth of a refused Tauth
+			var held, any []int
+			for i, a := range aslots {
+				if a.ok && a.live {
+					held = append(held, i)
+				}
+				if a.ok {
+					any = append(any, i)
+				}
+			}
+			ak := []string{"aread", "awrite", "aclose"}[rng.Intn(3)]
+			switch {
+			case len(held) > 0 && rng.Chance(9, 10):
+				do(ak, held[rng.Intn(len(held))])
+				continue
+			case len(any) > 0 && rng.Chance(1, 2):
+				do(ak, any[rng.Intn(len(any))])
+				continue
+			case len(aslots) > 0 && aslots[len(aslots)-1].af != nil && rng.Chance(1, 2):
+				do("aclose", len(aslots)-1)
+				continue
+			}
 		}
 		kind := []string{"walk", "walk", "walk", "walk", "open", "opendir", "create", "create", "stat", "wstat", "clunk", "remove"}[rng.Intn(12)]
 		reuse = false
@@ -854,14 +1071,22 @@ func runSeq(r *rep.Report, rng *prng.R, e2e bool) {
 			}
 		}
 	}
-	bound, _ := boundFids(r, inner)
+	for i := range aslots {
+		if aslots[i].live {
+			do("aclose", i)
+		}
+	}
+	bound, _ := tableOf()
 	c := caseSoFar()
 	if len(bound) != 0 {
-		r.Fail("cfs.leak", fmt.Sprintf("every entry obtained was clunked or removed, the server still holds fids %v", bound), c, nil)
+		r.Fail("cfs.leak", fmt.Sprintf("every entry obtained was clunked or removed and every auth file closed, the server still holds fids %v", bound), c, nil)
 	}
 	br := "cfs"
 	if e2e {
 		br = "cfs-e2e"
+	}
+	if scripted {
+		br = "cfs-scripted"
 	}
 	if hasWalkDot {
 		br += ":normalised-walk"
@@ -893,17 +1118,23 @@ func main() {
 	if uint32(p9p.NOFID) != 0xFFFFFFFF || p9p.QTDIR != 0x80 || p9p.OREAD != 0 {
 		panic("NOFID/QTDIR/OREAD differ from the constants of Model/Cfs.v")
 	}
-	r.Rule = "random sequences of 3..30 Attach/Walk/Open/OpenDir/Create/Stat/WStat/Clunk/Remove on CFileSys(spy(SFileSys(scripted FS))), name lists over {a,b,dir1,x,'.','','..',x/y,a\\b,random bytes} incl. (dir1 .), (x ..), (.), the FS answering each call by script (complete/partial/failed walks, failing opens/creates/clunks), name lists of up to 40 names, every sequence closed by clunking or removing all live entries; the same family end to end over CFileSys(spy(CSession))->in-memory conn->ServeConn(SSession(SFileSys(scripted FS))) with the fid table read at the far end; plus long histories (one attach, 85000..1200000 walk(+clunk/remove) rounds from the live root, 72000..960000 fid allocations, some entries kept live) described by three numbers and expanded identically by harness and model, compared on the fid of every call. Non-trivial: more than one operation; distinct by canonical case text."
+	r.Rule = "random sequences of 3..30 Attach/Walk/Open/OpenDir/Create/Stat/WStat/Clunk/Remove on CFileSys(spy(SFileSys(scripted FS))), name lists over {a,b,dir1,x,'.','','..',x/y,a\\b,random bytes} incl. (dir1 .), (x ..), (.), the FS answering each call by script (complete/partial/failed walks, failing opens/creates/clunks), name lists of up to 40 names, every sequence closed by clunking or removing all live entries; the same family over a session that answers every call at random (Rauth/Rerror, auth files that can be read, written and attached with, any number of qids); the same family end to end over CFileSys(spy(CSession))->in-memory conn->ServeConn(SSession(SFileSys(scripted FS))) with the fid table read at the far end; plus long histories (one attach, 85000..1200000 walk(+clunk/remove) rounds from the live root, 72000..960000 fid allocations, some entries kept live) described by three numbers and expanded identically by harness and model, compared on the fid of every call. Non-trivial: more than one operation; distinct by canonical case text."
 	rng := prng.New(r.Seed)
 	n := r.N(600, 15000)
 	for i := 0; i < n; i++ {
-		runSeq(r, rng.Fork(), false)
+		runSeq(r, rng.Fork(), 0)
 	}
 	// the same over the real client session and a connection (walks of more than 16 names meet
 	// csession.go's Walk here)
 	ne := r.N(150, 3000)
 	for i := 0; i < ne; i++ {
-		runSeq(r, rng.Fork(), true)
+		runSeq(r, rng.Fork(), 1)
+	}
+	// and over a session that answers anything at all (also what no server would: auth files that
+	// can be read and attached with, surplus qids, ...)
+	nx := r.N(300, 6000)
+	for i := 0; i < nx; i++ {
+		runSeq(r, rng.Fork(), 2)
 	}
 	r.Extra["operations_by_result"] = opResults
 	defer func() { r.Extra["implementation_panics"] = nPanics }()
